@@ -3,6 +3,7 @@ package props
 import (
 	"fmt"
 	"os"
+	"sort"
 
 	"github.com/openziti/storage/boltz"
 	"go.etcd.io/bbolt"
@@ -18,7 +19,103 @@ import (
 // new values only. What a create through the second child store over existing data does is not judged.
 const c06SibCases = 48
 
-func c06Siblings(c *core.Ctx, idx int) {
+func c06Siblings(c *core.Ctx, idx int) { siblingScenario(c, idx, "C06") }
+
+// sibIndexProblems recomputes what the five indexes of the sibling schema must hold from the raw entity buckets and
+// compares with the raw index buckets; it also lists owner references (fk constraints of both child stores) that name
+// a missing hub.
+func sibIndexProblems(tx *bbolt.Tx, sc *schema.Schema) (index []string, dangling []string) {
+	type idx struct {
+		sym    string
+		unique bool
+		path   []string // below the entity bucket
+	}
+	idxs := []idx{{"tags", false, []string{"tags"}}, {"acode", true, []string{"ka", "acode"}}, {"aroles", false, []string{"ka", "aroles"}}, {"bcode", true, []string{"kb", "bcode"}}, {"broles", false, []string{"kb", "broles"}}}
+	ids := sc.St("nodes").RawIds(tx)
+	hubs := map[string]bool{}
+	for _, h := range sc.St("hubs").RawIds(tx) {
+		hubs[h] = true
+	}
+	for _, ix := range idxs {
+		want := map[string]map[string]bool{}
+		for _, id := range ids {
+			b := bpath(tx, append([]string{"stores", "nodes", id}, ix.path[:len(ix.path)-1]...)...)
+			if b == nil {
+				continue
+			}
+			last := ix.path[len(ix.path)-1]
+			if ix.unique {
+				if v := boltz.FieldToString(boltz.GetTypeAndValue(b.Get([]byte(last)))); v != nil && *v != "" {
+					if want[*v] == nil {
+						want[*v] = map[string]bool{}
+					}
+					want[*v][id] = true
+				}
+			} else if lb := b.Bucket([]byte(last)); lb != nil {
+				_ = lb.ForEach(func(k, _ []byte) error {
+					if len(k) > 1 {
+						if want[string(k[1:])] == nil {
+							want[string(k[1:])] = map[string]bool{}
+						}
+						want[string(k[1:])][id] = true
+					}
+					return nil
+				})
+			}
+		}
+		got := map[string]map[string]bool{}
+		if ib := bpath(tx, "stores", "indexes", "nodes", ix.sym); ib != nil {
+			_ = ib.ForEach(func(k, v []byte) error {
+				if ix.unique {
+					got[string(k)] = map[string]bool{string(v): true}
+					return nil
+				}
+				got[string(k)] = map[string]bool{}
+				if vb := ib.Bucket(k); vb != nil {
+					_ = vb.ForEach(func(ek, _ []byte) error {
+						if len(ek) > 1 {
+							got[string(k)][string(ek[1:])] = true
+						}
+						return nil
+					})
+				}
+				return nil
+			})
+		}
+		for v, holders := range want {
+			for id := range holders {
+				if !got[v][id] {
+					index = append(index, fmt.Sprintf("index %s: entry %q -> %s missing", ix.sym, v, id))
+				}
+			}
+		}
+		for v, holders := range got {
+			if len(holders) == 0 {
+				index = append(index, fmt.Sprintf("index %s: empty key %q left behind", ix.sym, v))
+			}
+			for id := range holders {
+				if !want[v][id] {
+					index = append(index, fmt.Sprintf("index %s: stale entry %q -> %s", ix.sym, v, id))
+				}
+			}
+		}
+	}
+	for _, id := range ids {
+		for _, kid := range []string{"ka", "kb"} {
+			if b := bpath(tx, "stores", "nodes", id, kid); b != nil {
+				if v := boltz.FieldToString(boltz.GetTypeAndValue(b.Get([]byte("owner")))); v != nil && *v != "" && !hubs[*v] {
+					dangling = append(dangling, fmt.Sprintf("nodes[%s].%s.owner = %s which does not exist", id, kid, *v))
+				}
+			}
+		}
+	}
+	sort.Strings(index)
+	sort.Strings(dangling)
+	return
+}
+
+// siblingScenario runs the sibling-child-stores history for property prop (violation keys carry its id).
+func siblingScenario(c *core.Ctx, idx int, prop string) {
 	r := c.Rand()
 	hubs := &schema.StoreDef{Type: "hubs", BasePath: []string{"stores"},
 		Fields: []schema.Field{{Name: "nodes", Kind: schema.KList, FK: "nodes", Derived: true}},
@@ -28,11 +125,13 @@ func c06Siblings(c *core.Ctx, idx int) {
 		SetIdx: []string{"tags"},
 		Links:  []schema.LinkDef{{Field: "hubs", Target: "hubs", TargetField: "nodes"}}}
 	kidA := &schema.StoreDef{Type: "nodes", Parent: "nodes", ChildPath: []string{"ka"},
-		Fields: []schema.Field{{Name: "acode", Kind: schema.KStr}, {Name: "aroles", Kind: schema.KList}},
-		Unique: []schema.UniqueDef{{Field: "acode", Nullable: true}}, SetIdx: []string{"aroles"}}
+		Fields: []schema.Field{{Name: "acode", Kind: schema.KStr}, {Name: "aroles", Kind: schema.KList}, {Name: "owner", Kind: schema.KStr, FK: "hubs"}},
+		Unique: []schema.UniqueDef{{Field: "acode", Nullable: true}}, SetIdx: []string{"aroles"},
+		FKs:    []schema.FKDef{{Field: "owner", Target: "hubs", Kind: schema.FkConstraint, Nullable: true, Cascade: int(boltz.CascadeNone)}}}
 	kidB := &schema.StoreDef{Type: "nodes", Parent: "nodes", ChildPath: []string{"kb"}, Extended: idx%2 == 1,
-		Fields: []schema.Field{{Name: "bcode", Kind: schema.KStr}, {Name: "broles", Kind: schema.KList}},
-		Unique: []schema.UniqueDef{{Field: "bcode", Nullable: true}}, SetIdx: []string{"broles"}}
+		Fields: []schema.Field{{Name: "bcode", Kind: schema.KStr}, {Name: "broles", Kind: schema.KList}, {Name: "owner", Kind: schema.KStr, FK: "hubs"}},
+		Unique: []schema.UniqueDef{{Field: "bcode", Nullable: true}}, SetIdx: []string{"broles"},
+		FKs:    []schema.FKDef{{Field: "owner", Target: "hubs", Kind: schema.FkConstraint, Nullable: true, Cascade: int(boltz.CascadeNone)}}}
 	sc := schema.Build([]*schema.StoreDef{hubs, nodes, kidA, kidB})
 	path := c.TempFile("c06s")
 	db, err := sc.OpenDb(path)
@@ -43,7 +142,12 @@ func c06Siblings(c *core.Ctx, idx int) {
 	defer func() { _ = db.Close(); _ = os.Remove(path) }()
 	stores := map[string]*schema.St{"parent": sc.St("nodes"), "childA": sc.St("nodes/ka"), "childB": sc.St("nodes/kb")}
 	_ = db.Update(nil, func(ctx boltz.MutateContext) error {
-		return sc.St("hubs").Store.Create(ctx, &schema.Ent{Id: "hub-zz", Typ: "hubs", V: map[string]any{}})
+		for _, h := range []string{"hub-zz", "hub-own"} {
+			if err := sc.St("hubs").Store.Create(ctx, &schema.Ent{Id: h, Typ: "hubs", V: map[string]any{}}); err != nil {
+				return err
+			}
+		}
+		return nil
 	})
 	ids := []string{"nd-one", "nd-two", "nd-three"}
 	seq := 0
@@ -51,10 +155,13 @@ func c06Siblings(c *core.Ctx, idx int) {
 		seq++
 		v := map[string]any{"label": fmt.Sprintf("label-%d", seq), "tags": []string{fmt.Sprintf("tag-%d", seq%3), "tag-shared"}}
 		if via == "childA" {
-			v["acode"], v["aroles"] = fmt.Sprintf("acode-%d", seq), []string{"ar-shared", fmt.Sprintf("ar-%d", seq%2)}
+			v["acode"], v["aroles"] = fmt.Sprintf("acode-%d", seq%5), []string{"ar-shared", fmt.Sprintf("ar-%d", seq%2)}
 		}
 		if via == "childB" {
-			v["bcode"], v["broles"] = fmt.Sprintf("bcode-%d", seq), []string{"br-shared", fmt.Sprintf("br-%d", seq%2)}
+			v["bcode"], v["broles"] = fmt.Sprintf("bcode-%d", seq%5), []string{"br-shared", fmt.Sprintf("br-%d", seq%2)}
+		}
+		if via != "parent" && seq%3 != 0 {
+			v["owner"] = "hub-own"
 		}
 		return &schema.Ent{Id: id, Typ: "nodes", V: v}
 	}
@@ -63,7 +170,7 @@ func c06Siblings(c *core.Ctx, idx int) {
 	}
 	for step := 0; step < 40; step++ {
 		id := core.Pick(r, ids)
-		kind := core.Pick(r, []string{"create", "create", "create-second-child", "update", "link", "delete", "delete"})
+		kind := core.Pick(r, []string{"create", "create", "create-second-child", "update", "link", "delete", "delete", "delete-owner-hub", "create-owner-hub"})
 		via := core.Pick(r, []string{"parent", "childA", "childB"})
 		var before *dump.Dump
 		var hadP, hadA, hadB bool
@@ -94,6 +201,10 @@ func c06Siblings(c *core.Ctx, idx int) {
 				return stores["parent"].Links["hubs"].AddLinks(ctx.Tx(), id, "hub-zz")
 			case "delete":
 				return stores[via].Store.DeleteById(ctx, id)
+			case "delete-owner-hub":
+				return sc.St("hubs").Store.DeleteById(ctx, "hub-own")
+			case "create-owner-hub":
+				return sc.St("hubs").Store.Create(ctx, &schema.Ent{Id: "hub-own", Typ: "hubs", V: map[string]any{}})
 			}
 			return nil
 		})
@@ -102,9 +213,21 @@ func c06Siblings(c *core.Ctx, idx int) {
 		var after *dump.Dump
 		var nowA, nowB bool
 		_ = db.View(func(tx *bbolt.Tx) error { after = dump.Tx(tx); _, nowA, nowB = has(tx, id); return nil })
+		// after every operation: the five indexes mirror the entities, no owner reference dangles
+		_ = db.View(func(tx *bbolt.Tx) error {
+			ixp, dang := sibIndexProblems(tx, sc)
+			c.Count("sibling_states_checked", 1)
+			if len(ixp) > 0 && (prop == "C03" || prop == "C06") {
+				c.Violationf(prop+" siblings: index does not mirror the entities after "+kind+" through "+via+": "+firstWords(ixp[0]), info, "%v", ixp)
+			}
+			if len(dang) > 0 && prop == "C04" {
+				c.Violationf(prop+" siblings: dangling reference after "+kind, info, "%v", dang)
+			}
+			return nil
+		})
 		if opErr != nil {
 			if after.Hash() != before.Hash() {
-				c.Violationf("C06 siblings: an operation that returned an error changed the database ("+kind+" through "+via+")", info, "diff: %v", dump.Diff(before, after, nil, 4))
+				c.Violationf(prop+" siblings: an operation that returned an error changed the database ("+kind+" through "+via+")", info, "diff: %v", dump.Diff(before, after, nil, 4))
 			}
 			continue
 		}
@@ -121,7 +244,7 @@ func c06Siblings(c *core.Ctx, idx int) {
 			c.Cover("sibling_delete", shape+" through "+via)
 			c.Nontrivial("sibling", shape, via, kidB.Extended)
 			if hits := after.FindId(id); len(hits) > 0 {
-				c.Violationf("C06 siblings: trace of deleted id ("+shape+" deleted through "+via+"): "+traceClass(hits[0]), info, "id %q still occurs after the committed delete: %v", id, hits)
+				c.Violationf(prop+" siblings: trace of deleted id ("+shape+" deleted through "+via+"): "+traceClass(hits[0]), info, "id %q still occurs after the committed delete: %v", id, hits)
 			}
 		case "create":
 			if hadP {
@@ -131,17 +254,17 @@ func c06Siblings(c *core.Ctx, idx int) {
 			_ = db.View(func(tx *bbolt.Tx) error {
 				e, found, err := stores["parent"].Store.FindById(tx, id)
 				if err != nil || !found {
-					c.Violationf("C06 siblings: created entity not found", info, "%v", err)
+					c.Violationf(prop+" siblings: created entity not found", info, "%v", err)
 					return nil
 				}
 				if l, _ := e.V["label"].(string); l != newEnt.V["label"] {
-					c.Violationf("C06 siblings: re-created entity carries old data", info, "label %q, written %q", l, newEnt.V["label"])
+					c.Violationf(prop+" siblings: re-created entity carries old data", info, "label %q, written %q", l, newEnt.V["label"])
 				}
 				if links := stores["parent"].Links["hubs"].GetLinks(tx, id); len(links) != 0 {
-					c.Violationf("C06 siblings: re-created entity carries old links", info, "links %q", links)
+					c.Violationf(prop+" siblings: re-created entity carries old links", info, "links %q", links)
 				}
 				if (nowA && via != "childA") || (nowB && via != "childB") {
-					c.Violationf("C06 siblings: re-created entity carries old child data", info, "child A data %v, child B data %v, created through %s", nowA, nowB, via)
+					c.Violationf(prop+" siblings: re-created entity carries old child data", info, "child A data %v, child B data %v, created through %s", nowA, nowB, via)
 				}
 				return nil
 			})
